@@ -295,6 +295,17 @@ def observe(arr, paths, cmd, opts=(), fail=None, extra_env=None, timeout=120):
     return o
 
 
+def lock_path_removed(o):
+    """did the command unlink / rename / replace <first content>.lock?  The lock is a flock on the INODE behind the path:
+    removing or replacing the path while a holder may exist splits the lock (later commands lock a new inode).
+    -> list of offending shim records (also: the snapshot shows the file gone or with another inode)"""
+    bad = [r for cl, k, r in o.eff if cl[0] == 'lock' and k in ('unlink', 'rename', 'rename-from', 'link', 'symlink')]
+    for cl, what, b4, af in o.diff:
+        if cl[0] == 'lock' and (what == 'removed' or 'inode' in what or what == 'type'):
+            bad.append({'call': 'snapshot', 'path': 'lock file', 'extra': what, 'ret': 0})
+    return bad
+
+
 def coarse(classes):
     """drop paths/kinds: WData -> ('WData',) etc., keep level / copy indices"""
     out = set()
